@@ -33,13 +33,28 @@ def mats():
     return cool, duct
 
 
+def ordered_ftf(spec):
+    """The duct flat-to-flat list as written in the input: spec["ftf"] is ascending (the reference); the reader accepts the
+    two values of a duct in either order ("inferred based on whichever is greater") and the ducts in any order."""
+    f = list(spec["ftf"])
+    order = spec.get("ftf_order", "ascending")
+    pairs = [f[i:i + 2] for i in range(0, len(f), 2)]
+    if order == "pairs_reversed":
+        pairs = [p[::-1] for p in pairs]
+    elif order == "ducts_reversed":
+        pairs = pairs[::-1]
+    elif order == "descending":
+        pairs = [p[::-1] for p in pairs[::-1]]
+    return [x for p in pairs for x in p]
+
+
 def build_region(spec):
     from dassh import region_rodded
     cool, duct = mats()
     nd = len(spec["ftf"]) // 2
     return region_rodded.RoddedRegion(
         "c08", spec["n_ring"], spec["P"], spec["D"], spec["H"], spec["Dw"], 0.1 * spec["D"],
-        list(spec["ftf"]), 1.0, cool, duct, None, "CTD", "CTD", "CTD", "DB", None, None,
+        ordered_ftf(spec), 1.0, cool, duct, None, "CTD", "CTD", "CTD", "DB", None, None,
         0.05 if nd > 1 else None, None, spec.get("wire_dir", "clockwise"), 1.0,
         bool(spec.get("se2")), 0.0, False)
 
@@ -73,7 +88,8 @@ def generated(draw, rings):
     H = draw(gen.fl(4.0, 80.0)) * b["D"] if b["Dw"] > 0 else 0.0
     return {"n_ring": n_ring, "ftf": ftf, "P": round(b["P"], 10), "D": round(b["D"], 10),
             "Dw": round(b["Dw"], 10), "H": round(H, 9), "se2": draw(st.booleans()),
-            "wire_dir": draw(st.sampled_from(["clockwise", "counterclockwise"]))}
+            "wire_dir": draw(st.sampled_from(["clockwise", "counterclockwise"])),
+            "ftf_order": draw(st.sampled_from(["ascending", "ascending", "pairs_reversed", "ducts_reversed", "descending"]))}
 
 
 def rot60(xy, k=1):
@@ -101,7 +117,7 @@ def run(spec):
     o = Outcome()
     n = spec["n_ring"]
     nd = len(spec["ftf"]) // 2
-    o.classes.update({"n_ring": n, "n_duct": nd, "se2": bool(spec.get("se2")),
+    o.classes.update({"n_ring": n, "n_duct": nd, "ftf_order": spec.get("ftf_order", "ascending"), "se2": bool(spec.get("se2")),
                       "bare": spec["Dw"] == 0.0})
     try:
         rr = drive.guarded("construct", build_region, spec)
